@@ -105,3 +105,76 @@ def mixed_presence_tests(model, rep, rule, module_names, what, consequence, floo
                     f"so a present-but-falsy value is taken for 'absent' ({consequence})", stmt=f"mixed-presence {nm}")
     rep.floor(rule + "-identity-tested", n_ident, floor)
     rep.ok(rule, "+".join(sorted(module_names)), "-", f"{n_ident} variables tested by identity with None are never also tested through their truth value", stmt="mixed-presence-tests")
+
+
+def optional_results_by_identity(model, rep, rule, module_names, what, consequence, floor):
+    """A helper of the module that returns None for 'nothing given' on one path and an object on another: callers that bind its result to a local must
+    test that local by identity with None, never through its truth value (the object may be an empty, hence falsy, container)."""
+    optional = {}
+    for f in model.all_functions():
+        if f.module.name not in module_names:
+            continue
+        rets = [n for n in ast.walk(f.node) if isinstance(n, ast.Return)]
+        none_ret = [r for r in rets if r.value is not None and isinstance(r.value, ast.Constant) and r.value.value is None]
+        val_ret = [r for r in rets if r.value is not None and not (isinstance(r.value, ast.Constant) and r.value.value is None)]
+        if none_ret and val_ret:
+            optional[f.name] = f
+    n_sites = 0
+    for f in sorted(model.all_functions(), key=lambda g: g.qualname):
+        if f.module.name not in module_names:
+            continue
+        names = {}
+        for n in ast.walk(f.node):
+            if isinstance(n, ast.Assign) and len(n.targets) == 1 and isinstance(n.targets[0], ast.Name) and isinstance(n.value, ast.Call):
+                fn = n.value.func
+                callee = fn.attr if isinstance(fn, ast.Attribute) else (fn.id if isinstance(fn, ast.Name) else None)
+                if callee in optional:
+                    names[n.targets[0].id] = callee
+        if not names:
+            continue
+        n_sites += len(names)
+        for (n_, nm, how) in truthiness_uses(f.node, set(names)):
+            rep.bad(rule, f.qualname, where(f, n_), f"`{nm}` holds the result of {names[nm]}(), which is None when {what} and an object otherwise, but it is {how}: "
+                    f"an empty (falsy) object is taken for 'not given' ({consequence})", stmt=f"optional-result {names[nm]}")
+    rep.floor(rule + "-optional-results", n_sites, floor)
+    rep.ok(rule, "+".join(sorted(module_names)), "-", f"{n_sites} locals holding an optional helper result ({sorted(optional)}) are tested by identity only", stmt="optional-results")
+
+
+def key_triple_forwarded(model, rep, rule, module_names, floor):
+    """Rdatasets are addressed by (rdclass, rdtype, covers).  A call that hands `<x>.rdtype` (or its own `rdtype` parameter) to a callee that also takes
+    `covers` must hand over `<x>.covers` (its own `covers`) as well: otherwise the callee's default NONE addresses a different rdataset for RRSIG/SIG."""
+    # method name -> ordered parameter names (without self/cls), only when every package function of that name agrees on the position of rdtype and covers
+    table = {}
+    for f in model.all_functions():
+        ps = [p_ for p_ in f.params() if p_ not in ("self", "cls")]
+        if "rdtype" in ps and "covers" in ps:
+            table.setdefault(f.name, set()).add((ps.index("rdtype"), ps.index("covers")))
+    table = {k: next(iter(v)) for k, v in table.items() if len(v) == 1}
+    n = 0
+    for f in sorted(model.all_functions(), key=lambda g: g.qualname):
+        if f.module.name not in module_names:
+            continue
+        own = set(f.params())
+        for c in ast.walk(f.node):
+            if not isinstance(c, ast.Call) or any(isinstance(a, ast.Starred) for a in c.args) or any(k.arg is None for k in c.keywords):
+                continue
+            name = c.func.attr if isinstance(c.func, ast.Attribute) else (c.func.id if isinstance(c.func, ast.Name) else None)
+            if name not in table:
+                continue
+            (i_t, i_c) = table[name]
+            a_t = c.args[i_t] if len(c.args) > i_t else next((k.value for k in c.keywords if k.arg == "rdtype"), None)
+            a_c = c.args[i_c] if len(c.args) > i_c else next((k.value for k in c.keywords if k.arg == "covers"), None)
+            if a_t is None:
+                continue
+            want = None
+            if isinstance(a_t, ast.Attribute) and a_t.attr == "rdtype":
+                want = src(a_t.value) + ".covers"
+            elif isinstance(a_t, ast.Name) and a_t.id == "rdtype" and "covers" in own:
+                want = "covers"
+            if want is None:
+                continue
+            n += 1
+            rep.check(a_c is not None and src(a_c) == want, rule, f.qualname, where(f, c), f"`{src(c.func)}` receives `{want}` with `{src(a_t)}`",
+                      f"`{src(c)[:80]}` passes `{src(a_t)}` but " + (f"`{src(a_c)}`" if a_c is not None else "nothing") + f" for covers (expected `{want}`): "
+                      "for RRSIG/SIG rdatasets the callee then addresses the rdataset with covers NONE, i.e. a different one (stale duplicates, lost deletes)", stmt=f"triple {name} <- {want}")
+    rep.floor(rule + "-triples", n, floor)
